@@ -1,5 +1,5 @@
 """Recording real path() executions as PathTrace events (+ the Train events of their epochs)."""
-import math, warnings, hashlib
+import math, warnings, hashlib, io, contextlib
 import numpy as np
 from . import train
 
@@ -195,7 +195,8 @@ def record_path(model, X, y=None, script=None, frac=None, max_calls=4000, call=N
             model._batchify = Count()
             bs.compute_val_score = spy_cvs
             try:
-                res = call() if call is not None else model.path(X, y, **pargs)
+                with contextlib.redirect_stdout(io.StringIO()):          # verbose=True models print their progress
+                    res = call() if call is not None else model.path(X, y, **pargs)
             except Exception as e_:
                 err = e_
             finally:
